@@ -257,4 +257,134 @@ theorem tsTextUs_tsJsonText (us : Int) : tsTextUs (tsJsonText us) = us := by
   rw [fracUs _ hlt]
   omega
 
+/-! ### `_Duration.delta_from_json` -/
+
+theorem digit_ne_point (c : Char) (h : c.isDigit = true) : (c != '.') = true := by
+  simp only [bne_iff_ne, ne_eq]
+  intro he; subst he; exact absurd h (by decide)
+
+theorem takeWhile_digits (ip rest : Text) (hi : allDigits ip = true) :
+    (ip ++ '.' :: rest).takeWhile (· != '.') = ip ∧ (ip ++ '.' :: rest).dropWhile (· != '.') = '.' :: rest := by
+  induction ip with
+  | nil => simp
+  | cons c cs ih =>
+    simp only [allDigits, List.all_cons, Bool.and_eq_true] at hi
+    have hc := digit_ne_point c hi.1
+    have := ih (by simpa [allDigits] using hi.2)
+    simp only [List.cons_append, List.takeWhile, List.dropWhile, hc, this.1, this.2, and_self]
+
+/-- `Decimal` of the unsigned literal `ip.fp` (either part may be empty, not both) -/
+theorem decimalBody_point (neg : Bool) (ip fp : Text) (hi : allDigits ip = true) (hf : allDigits fp = true)
+    (hne : ¬ (ip = [] ∧ fp = [])) :
+    decimalBody neg (ip ++ '.' :: fp) = .ok ⟨neg, Nat.ofDigitChars 10 (ip ++ fp) 0, fp.length⟩ := by
+  unfold decimalBody
+  obtain ⟨h1, h2⟩ := takeWhile_digits ip fp hi
+  simp only [h1, h2, List.drop_one, List.tail_cons, hi, hf, Bool.true_and]
+  have : (ip.isEmpty && fp.isEmpty) = false := by
+    cases ip <;> cases fp <;> simp_all
+  simp [this]
+
+/-- a literal that starts with a digit or the point has no sign -/
+theorem splitSign_unsigned (ip rest : Text) (hi : allDigits ip = true) :
+    splitSign (ip ++ '.' :: rest) = (false, ip ++ '.' :: rest) := by
+  cases ip with
+  | nil => simp [splitSign]
+  | cons c cs =>
+    simp only [allDigits, List.all_cons, Bool.and_eq_true] at hi
+    have h1 : c ≠ '-' := by intro he; subst he; exact absurd hi.1 (by decide)
+    have h2 : c ≠ '+' := by intro he; subst he; exact absurd hi.1 (by decide)
+    simp [splitSign, h1, h2]
+
+/-- `Decimal(sign ++ ip ++ "." ++ fp)` for the signs "", "-", "+" -/
+theorem decimalOf_point (neg : Bool) (ip fp : Text) (hi : allDigits ip = true) (hf : allDigits fp = true)
+    (hne : ¬ (ip = [] ∧ fp = [])) :
+    decimalOf ((if neg then ['-'] else []) ++ (ip ++ '.' :: fp))
+      = .ok ⟨neg, Nat.ofDigitChars 10 (ip ++ fp) 0, fp.length⟩ := by
+  unfold decimalOf
+  cases neg with
+  | false =>
+    simp only [Bool.false_eq_true, if_false, List.nil_append]
+    rw [splitSign_unsigned ip fp hi]
+    exact decimalBody_point false ip fp hi hf hne
+  | true =>
+    simp only [if_true, List.cons_append, List.nil_append, splitSign]
+    exact decimalBody_point true ip fp hi hf hne
+
+theorem decimalOf_plus (ip fp : Text) (hi : allDigits ip = true) (hf : allDigits fp = true)
+    (hne : ¬ (ip = [] ∧ fp = [])) :
+    decimalOf ('+' :: (ip ++ '.' :: fp)) = .ok ⟨false, Nat.ofDigitChars 10 (ip ++ fp) 0, fp.length⟩ := by
+  unfold decimalOf
+  simp only [splitSign, show ('+' : Char) ≠ '-' by decide, if_false, if_true]
+  exact decimalBody_point false ip fp hi hf hne
+
+/-- **`delta_from_json` as written on a decimal literal followed by ONE character** (the "s";
+    `value[:-1]` drops whatever stands there): the exact value times 10^6, truncated toward zero -/
+theorem delta_from_json_literal (neg : Bool) (ip fp : Text) (c : Char) (hi : allDigits ip = true)
+    (hf : allDigits fp = true) (hne : ¬ (ip = [] ∧ fp = []))
+    (hb : Nat.ofDigitChars 10 (ip ++ fp) 0 * 1000000 < 10 ^ 28) :
+    Src.duration_delta_from_json ((if neg then ['-'] else []) ++ (ip ++ '.' :: fp) ++ [c])
+      = .ok (let q : Int := ((Nat.ofDigitChars 10 (ip ++ fp) 0 * 1000000 / 10 ^ fp.length : Nat) : Int)
+             if neg then -q else q) := by
+  unfold Src.duration_delta_from_json
+  rw [show dropLast1 ((if neg then ['-'] else []) ++ (ip ++ '.' :: fp) ++ [c])
+        = (if neg then ['-'] else []) ++ (ip ++ '.' :: fp) from List.dropLast_concat]
+  rw [decimalOf_point neg ip fp hi hf hne, SrcTie.ok_bind]
+  unfold decMulInt
+  simp only [show (1000000 : Int).toNat = 1000000 from rfl]
+  rw [if_pos ⟨by decide, hb⟩, SrcTie.ok_bind]
+  simp only [intOfDec, Py.timedelta, Res.ok.injEq]
+  omega
+
+theorem allDigits_toDigits (n : Nat) : allDigits (Nat.toDigits 10 n) = true := by
+  unfold allDigits
+  rw [List.all_eq_true]
+  intro c hc
+  exact Nat.isDigit_of_mem_toDigits (by decide) (by decide) hc
+
+theorem allDigits_pad (k n : Nat) : allDigits (List.replicate k '0' ++ Nat.toDigits 10 n) = true := by
+  unfold allDigits
+  rw [List.all_append, Bool.and_eq_true]
+  refine ⟨?_, allDigits_toDigits n⟩
+  rw [List.all_eq_true]
+  intro c hc
+  rw [List.eq_of_mem_replicate hc]; decide
+
+/-- the characters of `f"{sign}{s}.{d:0Wd}s"` for natural `s`, `d`, `W` -/
+theorem renderSecs_nat (neg : Bool) (s nd d : Nat) :
+    renderSecs (neg, (s : Int), (nd : Int), (d : Int))
+      = (if neg then ['-'] else []) ++ (Nat.toDigits 10 s ++ '.' ::
+          (List.replicate (nd - (Nat.toDigits 10 d).length) '0' ++ Nat.toDigits 10 d)) ++ ['s'] := by
+  unfold renderSecs strInt zeroPad
+  have h1 : ¬ ((s : Int) < 0) := by omega
+  have h2 : ¬ ((d : Int) < 0) := by omega
+  simp only [h1, h2, if_false, Int.natAbs_natCast, Int.toNat_natCast, List.append_assoc, List.cons_append,
+    List.nil_append]
+
+theorem padded_value (s nd d : Nat) (h0 : 0 < nd) (hd : d < 10 ^ nd) :
+    Nat.ofDigitChars 10 (Nat.toDigits 10 s ++ (List.replicate (nd - (Nat.toDigits 10 d).length) '0' ++ Nat.toDigits 10 d)) 0
+        = 10 ^ nd * s + d
+    ∧ (List.replicate (nd - (Nat.toDigits 10 d).length) '0' ++ Nat.toDigits 10 d).length = nd := by
+  have hl : (Nat.toDigits 10 d).length ≤ nd := (Nat.length_toDigits_le_iff (by decide) h0).2 hd
+  constructor
+  · rw [Nat.ofDigitChars_append, Nat.ofDigitChars_ten_toDigits, Nat.ofDigitChars_append,
+      Nat.ofDigitChars_replicate_zero, Nat.ofDigitChars_eq_ofDigitChars_zero, Nat.ofDigitChars_ten_toDigits,
+      ← Nat.mul_assoc, ← Nat.pow_add]
+    rw [show (Nat.toDigits 10 d).length + (nd - (Nat.toDigits 10 d).length) = nd by omega]
+  · rw [List.length_append, List.length_replicate]; omega
+
+/-- **`delta_from_json` as written on the text `sign s . d(W digits) "s"` is the model's `durFromJson`**,
+    for every number of fractional digits W ≥ 1, as long as the coefficient times 10^6 fits the 28
+    digits of the decimal context -/
+theorem delta_from_json_eq (neg : Bool) (s nd d : Nat) (h0 : 0 < nd) (hd : d < 10 ^ nd)
+    (hb : (10 ^ nd * s + d) * 1000000 < 10 ^ 28) :
+    Src.duration_delta_from_json (renderSecs (neg, (s : Int), (nd : Int), (d : Int))) = .ok (durFromJson neg s nd d) := by
+  obtain ⟨hv, hl⟩ := padded_value s nd d h0 hd
+  rw [renderSecs_nat, delta_from_json_literal neg _ _ 's' (allDigits_toDigits s) (allDigits_pad _ d)
+    (by intro h; exact Nat.toDigits_ne_nil h.1) (by rw [hv]; exact hb)]
+  rw [hv, hl]
+  unfold durFromJson
+  have : (10 ^ nd * s + d) * 1000000 / 10 ^ nd = s * 1000000 + d * 1000000 / 10 ^ nd := by
+    rw [Nat.add_mul, Nat.mul_assoc, Nat.mul_add_div (Nat.pow_pos (by decide))]
+  simp only [this]
+
 end Bp.SrcTieLeaf
